@@ -108,22 +108,31 @@ pub fn cmd_worker(args: &[String]) -> i32 {
     let findings = known::load(&verif_dir());
     let io = io_dir();
 
-    // backstop: the only wall clock in the system. A run that does not finish within 60 s
-    // (normal cost: a fraction of a millisecond) is reported as a hang of that run.
+    // backstop: the only real clock in the system. A run that burns 60 s of this process's CPU
+    // time without finishing (normal cost: a fraction of a millisecond) is reported as a hang of
+    // that run. CPU time, not wall time: on a loaded machine a slow but finite run must not be
+    // taken for a hang; a run blocked without using the CPU is given 15 minutes of wall time.
     let progress = std::sync::Arc::new(std::sync::atomic::AtomicU64::new(u64::MAX));
     {
         let progress = progress.clone();
         let out = out.clone();
         std::thread::spawn(move || {
+            let cpu_s = || -> f64 {
+                let mut ru: libc::rusage = unsafe { std::mem::zeroed() };
+                unsafe { libc::getrusage(libc::RUSAGE_SELF, &mut ru) };
+                (ru.ru_utime.tv_sec + ru.ru_stime.tv_sec) as f64 + (ru.ru_utime.tv_usec + ru.ru_stime.tv_usec) as f64 / 1e6
+            };
             let mut last = u64::MAX;
             let mut since = Instant::now();
+            let mut cpu_since = cpu_s();
             loop {
                 std::thread::sleep(std::time::Duration::from_millis(500));
                 let cur = progress.load(std::sync::atomic::Ordering::Relaxed);
                 if cur != last {
                     last = cur;
                     since = Instant::now();
-                } else if cur != u64::MAX && cur != u64::MAX - 1 && since.elapsed().as_secs() >= 60 {
+                    cpu_since = cpu_s();
+                } else if cur != u64::MAX && cur != u64::MAX - 1 && (cpu_s() - cpu_since >= 60. || since.elapsed().as_secs() >= 900) {
                     let _ = std::fs::write(format!("{}.hang", out), format!("{}", cur));
                     std::process::exit(97);
                 }
@@ -562,7 +571,7 @@ pub fn cmd_run(args: &[String]) -> i32 {
     // a run that killed its process or hit the backstop
     if prop == "C07" && found.is_none() {
         if let Some(ix) = batch.died.iter().min() {
-            found = Some(Found { index: *ix, run_seed: run_seed(seed, *ix), oracle: "c07.process-died-or-hung".into(), step: 0, detail: "the worker process executing this run died on a signal or made no progress for 60 s".into() });
+            found = Some(Found { index: *ix, run_seed: run_seed(seed, *ix), oracle: "c07.process-died-or-hung".into(), step: 0, detail: "the worker process executing this run died on a signal or made no progress during 60 s of CPU time".into() });
         }
     }
     if let Some(f) = &found {
